@@ -488,6 +488,27 @@ def r_locations_written_by_parsers_only(r, prog):
     r.floor(12)
 
 
+def r_file_text_kept_as_read(r, prog):
+    """Rows and columns count the characters of the file as it is on disk: the text the preprocessor and the lexers run over (raw_text) is
+    the text SliceFile::new was given, stored as it is and written nowhere else. A normalisation on the way in (tabs expanded, line ends
+    unified, a BOM stripped) shifts every location after the first changed character."""
+    SF = 'slicec::slice_file::SliceFile'
+    mk = [a for a in aggregates(prog, SF, None, crates=('slicec', 'slicec_bin')) if not a['fn'].blocks[a['bb']].get('cleanup')]
+    if not mk:
+        raise AnchorMissing('construction of SliceFile')
+    for a in mk:
+        f = a['fn']
+        v = vexpr(f, a['rv']['ops'][a['rv']['fn'].index('raw_text')])
+        if re.match(r'^arg\d$', v):
+            r.ok('%s stores the text it is given as raw_text' % f.path)
+        else:
+            r.finding('file-text-normalised:%s' % f.path, a['span'], '%s stores %s as raw_text, not the text it was given: locations are counted in a text that is not the file' % (f.path, v[:120]))
+    for a in field_accesses(prog, SF, 'raw_text', crates=('slicec', 'slicec_bin')):
+        if a['kind'] in ('write', 'refmut'):
+            r.finding('file-text-rewritten:%s' % a['fn'].path, a['span'], '%s writes SliceFile::raw_text after construction' % a['fn'].path)
+    r.floor(1)
+
+
 def run(ctx):
     prog = ctx.prog
     ctx.run_rule('C09.1', 'T11', 'span provenance in every expanded production (path-sensitive over optional symbols)', r_span_provenance, prog, ctx.cache_dir)
@@ -499,4 +520,5 @@ def run(ctx):
     ctx.run_rule('C09.4c', 'T10', 'the underline starts at start.col - 1 on the first line (0 on the others) and ends at end.col - 1 on the last (the line width on the others)', r_highlight_bounds, prog)
     ctx.run_rule('C09.4b', 'T13', 'highlight arithmetic conditions (precondition ledger)', r_snippet_arithmetic, prog)
     ctx.run_rule('C09.6', 'T1', 'locations are written by the parsers only; diagnostics and notes store the span they are given', r_locations_written_by_parsers_only, prog)
+    ctx.run_rule('C09.7', 'T1', 'the text that locations are counted in is the file as read (raw_text stored as given, never rewritten)', r_file_text_kept_as_read, prog)
     ctx.run_rule('C09.5', 'T10', 'doc comment extent', r_doc_comment_span, prog, ctx.cache_dir)
